@@ -545,6 +545,28 @@ TWINS = {
         "class Tag(str):\n    pass\n"
         "@utype.dataclass\nclass D:\n    v: int\n    nxt: Optional['E'] = None\n    tags: List[Tag] = Field(default_factory=list, max_length=2)\n"
         "@utype.dataclass\nclass E:\n    w: int\n    back: Optional[D] = None\n"),
+    "generator-yield-ref": (
+        [("@utype.parse\ndef g(n: int) -> Iterator['P']:\n    for i in range(n):\n        yield dict(v=str(i))\n"
+          "@utype.parse\ndef h(n: int) -> Generator['P', 'Tg', List['P']]:\n    got = yield dict(v=n)\n"
+          "    return [dict(v=len(got))]\n", []),
+         ("class P(Schema):\n    v: int\nclass Tg(str):\n    pass\n",
+          ["[(type(x).__name__, x.v) for x in g(2)]", "[(type(x).__name__, x.v) for x in g('1')]", "list(g('x'))",
+           "(lambda it: (type(next(it)).__name__, [type(it.send('ab')).__name__] if False else None))(h(1))",
+           "[(type(x).__name__, x.v) for x in g(3)]"])],
+        "class P(Schema):\n    v: int\nclass Tg(str):\n    pass\n"
+        "@utype.parse\ndef g(n: int) -> Iterator[P]:\n    for i in range(n):\n        yield dict(v=str(i))\n"
+        "@utype.parse\ndef h(n: int) -> Generator[P, Tg, List[P]]:\n    got = yield dict(v=n)\n    return [dict(v=len(got))]\n"),
+    "generator-yield-ref-local": (
+        [("def make():\n    @utype.parse\n    def g(n: int) -> Iterator['P']:\n        for i in range(n):\n            yield dict(v=str(i))\n"
+          "    class P(Schema):\n        v: int\n    return g, P\ng, P = make()\n",
+          ["[(type(x).__name__, x.v) for x in g(2)]", "list(g('x'))", "[(type(x).__name__, x.v) for x in g(1)]"])],
+        "def make():\n    class P(Schema):\n        v: int\n    @utype.parse\n    def g(n: int) -> Iterator[P]:\n        for i in range(n):\n"
+        "            yield dict(v=str(i))\n    return g, P\ng, P = make()\n"),
+    "generator-yield-ref-postponed-annotations": (
+        [("from __future__ import annotations\n@utype.parse\ndef g(n: int) -> Iterator[P]:\n    for i in range(n):\n        yield dict(v=str(i))\n", []),
+         ("class P(Schema):\n    v: int\n", ["[(type(x).__name__, x.v) for x in g(2)]", "list(g('x'))"])],
+        "class P(Schema):\n    v: int\n"
+        "@utype.parse\ndef g(n: int) -> Iterator[P]:\n    for i in range(n):\n        yield dict(v=str(i))\n"),
     "subclass-adds-ref-to-pending-base": (
         [("class Base(Schema):\n    a: Optional['X'] = None\n"
           "class Sub(Base):\n    b: List['Y'] = Field(default_factory=list)\n", []),
